@@ -106,6 +106,10 @@ def cases(tier, seed):
                     for axis in (0, 1, 2):
                         out.append({"kind": "law", "law": law, "sub": "rev", "pair": pair, "axis": axis, "par": par,
                                     "special": special})
+    # very short two-point elements (micro- and sub-micrometre lengths in SI units): closed-form power balance
+    for law in ("spring", "kv"):
+        for form in ("force", "compliance"):
+            out.append({"kind": "law_short", "law": law, "form": form})
     # assembled systems: singles and pairs
     for i, a in enumerate(EPOT_POOL):
         out.append({"kind": "epot", "members": [a], "has_lineload": a == "rod_lineload"})
@@ -586,10 +590,75 @@ def check_epot(case):
     return acc.result(outcome="epot:float" if ok else "epot:other")
 
 
+def check_law_short(case):
+    """Spring / Kelvin-Voigt element between two point masses whose distance is 1e-6 .. 5e-8 (the library accepts initial lengths above
+    1e-8).  For point masses everything is closed form: with d = r2 - r1, l = |d|, n = d / l, the element power is
+    -(k (l - l_ref) + c n.(v2 - v1)) n.(v2 - v1) and the stored energy k/2 (l - l_ref)^2; judged relative to the size of the terms."""
+    from cardillo import System
+    from cardillo.discrete import PointMass
+    from cardillo.interactions import TwoPointInteraction
+    from cardillo.force_laws import Spring, KelvinVoigtElement
+
+    acc = Acc()
+    seed = case["seed"]
+    k, dmp = 3.0e3, (0.0 if case["law"] == "spring" else 40.0)
+    e0 = np.array([2.0, -1.0, 2.0]) / 3.0
+    for l0 in (1e-6, 2e-7, 5e-8):
+        system = System()
+        c1 = np.array([0.3, -0.2, 0.1])
+        pm1 = PointMass(1.0, q0=c1.copy(), name="pm1")
+        pm2 = PointMass(2.0, q0=c1 + l0 * e0, name="pm2")
+        tpi = TwoPointInteraction(pm1, pm2, name="tpi")
+        cf = case["form"] == "compliance"
+        if case["law"] == "spring":
+            el = Spring(tpi, k, compliance_form=cf, name="law")
+        else:
+            el = KelvinVoigtElement(tpi, k, dmp, compliance_form=cf, name="law")
+        system.add(pm1, pm2, el)
+        F._assemble(system)
+        q0 = np.asarray(system.q0, float)
+        l_ref = float(np.linalg.norm(q0[pm2.my_qDOF] - q0[pm1.my_qDOF]))
+        for j, stretch in enumerate((1.0, 1.3, 0.6)):
+            q = q0.copy()
+            w = weyl(seed, 60 + j, 3)
+            dirn = e0 + 0.3 * (w - (w @ e0) * e0)
+            q[pm2.my_qDOF] = q[pm1.my_qDOF] + stretch * l0 * dirn / np.linalg.norm(dirn)
+            d = q[pm2.my_qDOF] - q[pm1.my_qDOF]
+            l = float(np.linalg.norm(d))
+            n = d / l
+            for uname, u in (("gen", weyl(seed, 64 + j, system.nu)), ("gen_small", l0 * weyl(seed, 67 + j, system.nu))):
+                data = {"l0": l0, "stretch": stretch, "u": uname, "form": case["form"]}
+                vrel = u[pm2.my_uDOF] - u[pm1.my_uDOF]
+                ldot = float(n @ vrel)
+                force = k * (l - l_ref) + dmp * ldot
+                E = float(lib("System.E_pot", system.E_pot, 0.0, q))
+                acc.evals += 2
+                if not abs(E - 0.5 * k * (l - l_ref) ** 2) <= 1e-7 * 0.5 * k * max((l - l_ref) ** 2, (1e-3 * l0) ** 2):
+                    acc.stats["n_states_energy_not_closed_form"] = acc.stats.get("n_states_energy_not_closed_form", 0) + 1
+                    continue  # the closed-form energy assumption of this case does not apply: no judgement
+                if cf:
+                    la = lib("System.la_c", system.la_c, 0.0, q, u)
+                    h = fd.dense(lib("System.W_c", system.W_c, 0.0, q)) @ la
+                else:
+                    h = lib("System.h", system.h, 0.0, q, u)
+                power = float(np.ravel(h) @ u)
+                want = -force * ldot
+                scale = (abs(k * (l - l_ref)) + abs(dmp * ldot)) * float(np.linalg.norm(vrel)) + 1e-300
+                acc.stat_max("max_err_short_element_power_rel", abs(power - want) / scale)
+                if abs(want) > 1e-3 * scale:
+                    acc.nontrivial = True
+                if not abs(power - want) <= 1e-7 * scale:
+                    acc.fail(f"{'Spring' if case['law'] == 'spring' else 'KelvinVoigt'}: element power vs closed form for a very short two-point element",
+                             f"power {power!r} vs {want!r} (l = {l:.3e}, l_ref = {l_ref:.3e})", dict(data, power=power, want=want, l=l))
+    return acc.result(outcome=f"law_short:{case['law']}:{case['form']}")
+
+
 # ------------------------------------------------------------------------------------------------
 def check(case):
     kind = case["kind"]
     try:
+        if kind == "law_short":
+            return check_law_short(case)
         if kind == "law":
             return check_law(case)
         if kind == "force":
